@@ -5,6 +5,7 @@ package env
 import (
 	"context"
 	"fmt"
+	"io"
 	"sort"
 	"sync"
 )
@@ -191,3 +192,12 @@ type AliasStore struct {
 }
 
 func (a AliasStore) NodeURLPrefix() string { return a.AliasPrefix }
+
+// FailErrKinds are the errors a failing store returns: a plain error, and errors that wrap the standard context
+// errors although the caller's context is alive (a store with per-request deadlines or hedged requests).
+var FailErrKinds = []error{
+	nil, // ErrInjected
+	fmt.Errorf("store request aborted: %w", context.Canceled),
+	fmt.Errorf("store request timed out: %w", context.DeadlineExceeded),
+	fmt.Errorf("connection lost: %w", io.ErrUnexpectedEOF),
+}
